@@ -9,6 +9,7 @@ import (
 	"math/rand"
 	"net"
 	"net/http"
+	"os"
 	"strconv"
 	"strings"
 	"sync"
@@ -437,6 +438,10 @@ func latticeCase(c *h.Case) {
 		} else {
 			c.Ev("leg-failed", "leg", lg.Name, "err", fmt.Sprint(err))
 			run.Count("legs_failed", 1)
+			run.Count("legs_failed_"+lg.Name+"_"+l.Protocol, 1)
+			if os.Getenv("C05_TIMING") != "" {
+				fmt.Fprintf(os.Stderr, "case %d leg %s failed: %v\n", c.Idx, lg.Name, err)
+			}
 		}
 	}
 	var wg sync.WaitGroup
@@ -505,6 +510,7 @@ func latticeCase(c *h.Case) {
 			}
 		}
 		run.Count("legs_failed", 1)
+		run.Count("legs_failed_udp_"+l.Protocol, 1)
 		c.Ev("leg-failed", "leg", "udp")
 	}()
 	wg.Wait()
